@@ -18,7 +18,7 @@ class Spec:
     rule = ""
 
     def configs(self, tier):
-        return ["asan"] if tier == "quick" else ["asan", "o2", "o0", "native"]
+        return ["asan", "o2"] if tier == "quick" else ["asan", "o2", "o0", "native"]
 
     def gen(self, rng, tier):
         return []
@@ -78,11 +78,16 @@ class C04(Spec):
     assumptions = ["Spec/*.lean is my reading of the documented formats"]
 
     def gen(self, rng, tier):
-        return genops.gen_scalar_all(rng, tier) + genops.gen_sweeps(rng, tier)
+        import os
+        repo = os.environ.get("VERIF_REPO", "/repo")
+        return (genops.gen_maxima(os.path.join(repo, "README.md")) + genops.gen_scalar_all(rng, tier) +
+                genops.gen_sweeps(rng, tier))
 
     def relevant_keys(self, op):
         if op.startswith("sweep"):
             return ["digest"]
+        if op.startswith(("maxcell", "hdrmax")):
+            return None
         return ["n", "b", "rb", "fb", "p32"]
 
 
